@@ -164,4 +164,26 @@ PROPS = {
                        "(otherwise it cannot complete and the run ends in `not-completed`, `join-never-resolved` or a deadlock); a full cross-thread queue makes the waker wait, not discard."),
         "level_note": "Layer 1 (executor) of the three layers in DESIGN §7 C03. Sequentially consistent interleavings only.",
     },
+    "C17": {
+        "title": "The blocking pool is bounded and loses nothing",
+        "engine": "T",
+        "package": "check-t",
+        "bin": "check-t",
+        "design_ref": "§5, §7 C17",
+        "technique": "deterministic simulation: the real AsyncifyPool (hook H1) with the real flume rendezvous channel (vendored, sim-aware locks/park/clock) on shuttle coroutines whose context switches and idle time-outs (simulated clock thread) are drawn from the run's choice sequence; 1-3 dispatching threads sharing one pool; per-job run counters, concurrency gauge against the limit, reject-and-retry and post-idle-job oracles; choice-sequence minimisation and replay",
+        "tiers": {
+            "quick": {"runs": 60_000, "time_limit_s": 60},
+            "thorough": {"runs": 30_000_000, "time_limit_s": 1500},
+        },
+        "rule": T_RULE,
+        "real": ["compio-driver::asyncify (AsyncifyPool, worker loop, DispatchError) with feature `verif`", "flume 0.12 bounded(0) channel (vendored: chan lock = try-lock + yield inside a simulation, SyncSignal park/unpark and Instant from the simulator)"],
+        "stub": T_STUB + ["time: a clock thread advances simulated time to the earliest pending time-out whenever the scheduler runs it"],
+        "assumptions": T_ASSUME + [
+            "a job's blocking work is modelled as 0-6 scheduling points; job panics are not injected at pool level (a panicking pool thread fails the whole shuttle execution; the driver wraps jobs in catch_unwind, which belongs to the K+T variant)",
+            "an idle time-out may fire at any scheduling decision once it is pending (no lower bound on how slowly other threads run)",
+        ],
+        "level_text": ("Seeded exploration of interleavings between dispatching threads, pool workers and idle time-outs for limits 1-3: every accepted job starts and finishes exactly once, jobs running at once never exceed the limit, "
+                       "a rejected job comes back intact and runs when retried, a job dispatched after the workers retired still runs, nothing hangs."),
+        "level_note": "Sequentially consistent interleavings only. 'Pool threads running jobs at once' is observed through the jobs themselves (a gauge incremented at job start), not through thread counts.",
+    },
 }
